@@ -71,7 +71,11 @@ pub(crate) struct DropAll(Weak<GuardInner>);
 impl Drop for DropAll {
     fn drop(&mut self) {
         if let Some(guard) = self.0.upgrade() {
+            #[cfg(metrique_verif)]
+            metrique_writer_core::verif_hooks::point("ka.drop_all.after_upgrade");
             if let Some(f) = guard.lock().unwrap().take() {
+                #[cfg(metrique_verif)]
+                metrique_writer_core::verif_hooks::point("ka.drop_all.after_take");
                 (f)()
             }
         }
